@@ -6,6 +6,7 @@ import (
 	"math"
 	"os"
 	"sort"
+	"strings"
 	"sync"
 	"testing"
 
@@ -15,9 +16,12 @@ import (
 	modelv1 "github.com/apache/skywalking-banyandb/api/proto/banyandb/model/v1"
 	snapshotpkg "github.com/apache/skywalking-banyandb/banyand/internal/snapshot"
 	"github.com/apache/skywalking-banyandb/banyand/protector"
+	"github.com/apache/skywalking-banyandb/pkg/convert"
 	"github.com/apache/skywalking-banyandb/pkg/fs"
 	"github.com/apache/skywalking-banyandb/pkg/index"
 	"github.com/apache/skywalking-banyandb/pkg/logger"
+	pbv1 "github.com/apache/skywalking-banyandb/pkg/pb/v1"
+	"github.com/apache/skywalking-banyandb/pkg/query/model"
 	"github.com/apache/skywalking-banyandb/verifkit"
 )
 
@@ -42,6 +46,37 @@ type xOp struct {
 	Desc  bool    `json:"desc,omitempty"`
 	Batch int     `json:"batch,omitempty"`
 	Slot  int     `json:"slot,omitempty"`
+	// TagKind (write): every element of the batch carries a tag "status" of this type: "" none | "str" (ok / error by payload
+	// parity) | "int" (200 / 500). Filter (query): only entries whose status is the string "ok".
+	TagKind string `json:"tag_kind,omitempty"`
+	Filter  bool   `json:"filter,omitempty"`
+}
+
+// xStatusOK is the tag filter of a filtered query: status is a string and equals "ok".
+type xStatusOK struct{}
+
+func (xStatusOK) Match(tags []*modelv1.Tag) (bool, error) {
+	for _, tag := range tags {
+		if tag.Key == "status" && tag.Value.GetStr() != nil && tag.Value.GetStr().GetValue() == "ok" {
+			return true, nil
+		}
+	}
+	return false, nil
+}
+
+func (xStatusOK) GetDecoder() model.TagValueDecoder {
+	return func(valueType pbv1.ValueType, value []byte, _ [][]byte) *modelv1.TagValue {
+		if value == nil {
+			return pbv1.NullTagValue
+		}
+		switch valueType {
+		case pbv1.ValueTypeStr:
+			return &modelv1.TagValue{Value: &modelv1.TagValue_Str{Str: &modelv1.Str{Value: string(value)}}}
+		case pbv1.ValueTypeInt64:
+			return &modelv1.TagValue{Value: &modelv1.TagValue_Int{Int: &modelv1.Int{Value: convert.BytesToInt64(value)}}}
+		}
+		return pbv1.NullTagValue
+	}
 }
 
 type xCase struct {
@@ -61,6 +96,8 @@ type xPin struct {
 var sidxLogOnce sync.Once
 
 type xEnv struct {
+	phase  string
+	okStr  map[int]bool // payload id -> the element carries the string status "ok"
 	s      SIDX
 	dir    string
 	nextID uint64
@@ -72,16 +109,41 @@ type xEnv struct {
 		flushes, merges, queries        int
 		splitWindows                    int
 		pinAcross                       bool
+		filtered, strTag, intTag        bool
 		multiPart, rangeCut, afterMerge bool
 	}
 }
 
-func (e *xEnv) query(op xOp, allSids []int) error {
+func (e *xEnv) query(op xOp, allSids []int) (qerr error) {
+	if os.Getenv("VERIF_DEBUG") != "" {
+		impl := e.s.(*sidx)
+		snap := impl.currentSnapshot()
+		desc := ""
+		if snap != nil {
+			for _, pw := range snap.parts {
+				desc += fmt.Sprintf(" [id=%d mem=%v ref=%d removable=%v count=%d]", pw.ID(), pw.mp != nil, pw.refCount(), pw.removable.Load(), pw.p.partMetadata.TotalCount)
+			}
+			snap.decRef()
+		}
+		fmt.Printf("DEBUG query filter=%v phase=%s parts:%s\n", op.Filter, e.phase, desc)
+		defer func() {
+			if r := recover(); r != nil {
+				fmt.Printf("DEBUG PANIC in phase=%s: %v\n", e.phase, r)
+				panic(r)
+			}
+		}()
+	}
 	sids := op.Sids
 	if len(sids) == 0 {
 		sids = allSids
 	}
 	req := QueryRequest{MaxBatchSize: op.Batch, MinKey: op.Min, MaxKey: op.Max}
+	if op.Filter {
+		req.TagFilter = xStatusOK{}
+		req.SchemaTagTypes = map[string]pbv1.ValueType{"status": pbv1.ValueTypeStr}
+		req.TagProjection = []model.TagProjection{{Names: []string{"status"}}}
+		e.stats.filtered = true
+	}
 	for _, s := range sids {
 		req.SeriesIDs = append(req.SeriesIDs, common.SeriesID(s))
 	}
@@ -97,6 +159,9 @@ func (e *xEnv) query(op xOp, allSids []int) error {
 	var want []xElem
 	for _, m := range e.model {
 		if !in[m.S] || (op.Min != nil && m.K < *op.Min) || (op.Max != nil && m.K > *op.Max) {
+			continue
+		}
+		if op.Filter && !e.okStr[m.D] {
 			continue
 		}
 		want = append(want, m)
@@ -239,7 +304,7 @@ func runSidx(x *verifkit.Ctx, c xCase) (*xEnv, error) {
 		return nil, err
 	}
 	defer s.Close()
-	e := &xEnv{s: s, dir: dir, nextID: 1, x: x}
+	e := &xEnv{s: s, dir: dir, nextID: 1, x: x, okStr: map[int]bool{}}
 	sidSet := map[int]bool{}
 	for _, op := range c.Ops {
 		for _, el := range op.Elems {
@@ -264,8 +329,10 @@ func runSidx(x *verifkit.Ctx, c xCase) (*xEnv, error) {
 			return nil
 		}
 		tr := snapshotpkg.NewTransition[*Snapshot](impl, prepare)
+		e.phase = fmt.Sprintf("window of %s (op %d)", what, i)
+		defer func() { e.phase = "" }()
 		for _, q := range []xOp{{Kind: "query"}, {Kind: "query", Desc: true}} {
-			if len(allSids) == 0 {
+			if w := os.Getenv("VERIF_SIDX_WINDOWS"); len(allSids) == 0 || (w != "" && !strings.Contains(w, strings.Fields(what)[0])) {
 				break
 			}
 			if err := e.query(q, allSids); err != nil {
@@ -273,6 +340,11 @@ func runSidx(x *verifkit.Ctx, c xCase) (*xEnv, error) {
 				tr.Release()
 				return fmt.Errorf("between preparation and commit of the %s of op %d: %v", what, i, err)
 			}
+		}
+		if w := os.Getenv("VERIF_SIDX_WINDOWS"); w != "" && !strings.Contains(w, strings.Fields(what)[0]) {
+			tr.Commit()
+			tr.Release()
+			return nil
 		}
 		if err := e.scanAll("between preparation and commit of the "+what, e.model); err != nil {
 			tr.Commit()
@@ -290,9 +362,17 @@ func runSidx(x *verifkit.Ctx, c xCase) (*xEnv, error) {
 		}
 	}()
 	full := func(i int) error {
+		e.phase = fmt.Sprintf("after op %d", i)
 		qs := []xOp{{Kind: "query"}, {Kind: "query", Desc: true, Batch: 3}}
 		if c.Split {
 			qs = []xOp{{Kind: "query"}, {Kind: "query", Desc: true}}
+		}
+		if e.stats.strTag || e.stats.intTag {
+			qs = append(qs, xOp{Kind: "query", Filter: true})
+		}
+		// the scan interface (used by maintenance tools) serves every entry as well
+		if err := e.scanAll(fmt.Sprintf("full scan after op %d", i), e.model); err != nil {
+			return err
 		}
 		for _, q := range qs {
 			if len(allSids) == 0 {
@@ -312,7 +392,25 @@ func runSidx(x *verifkit.Ctx, c xCase) (*xEnv, error) {
 			}
 			var reqs []WriteRequest
 			for _, el := range op.Elems {
-				reqs = append(reqs, WriteRequest{SeriesID: common.SeriesID(el.S), Key: el.K, Data: []byte(fmt.Sprintf("d%d", el.D))})
+				wr := WriteRequest{SeriesID: common.SeriesID(el.S), Key: el.K, Data: []byte(fmt.Sprintf("d%d", el.D))}
+				switch op.TagKind {
+				case "str":
+					v := "error"
+					if el.D%2 == 0 {
+						v = "ok"
+						e.okStr[el.D] = true
+					}
+					wr.Tags = []Tag{{Name: "status", Value: []byte(v), ValueType: pbv1.ValueTypeStr}}
+					e.stats.strTag = true
+				case "int":
+					v := int64(500)
+					if el.D%2 == 0 {
+						v = 200
+					}
+					wr.Tags = []Tag{{Name: "status", Value: convert.Int64ToBytes(v), ValueType: pbv1.ValueTypeInt64}}
+					e.stats.intTag = true
+				}
+				reqs = append(reqs, wr)
 			}
 			mp, err := s.ConvertToMemPart(reqs, 0, nil, nil)
 			if err != nil {
@@ -445,9 +543,17 @@ func genSidxCase(t *rapid.T) xCase {
 	var c xCase
 	d := 0
 	nb := rapid.IntRange(1, 6).Draw(t, "batches")
+	// tag mode: no tags | a string tag in every batch | the tag's type changes between batches (the parts conflict when merged)
+	tagMode := rapid.SampledFrom([]string{"none", "str", "mixed", "mixed"}).Draw(t, "tagmode")
 	for b := 0; b < nb; b++ {
 		n := rapid.IntRange(1, 25).Draw(t, "n")
 		op := xOp{Kind: "write"}
+		switch tagMode {
+		case "str":
+			op.TagKind = "str"
+		case "mixed":
+			op.TagKind = rapid.SampledFrom([]string{"str", "int", "str", ""}).Draw(t, "tagkind")
+		}
 		for i := 0; i < n; i++ {
 			d++
 			op.Elems = append(op.Elems, xElem{S: rapid.IntRange(1, 3).Draw(t, "s"), K: rapid.Int64Range(-5, 30).Draw(t, "k"), D: d})
@@ -465,6 +571,15 @@ func genSidxCase(t *rapid.T) xCase {
 		}
 	}
 	c.Ops = append(c.Ops, xOp{Kind: "flush"}, xOp{Kind: "merge", Pick: []int{0, 1, 2}})
+	if rapid.Bool().Draw(t, "round2") {
+		// a second round: a fresh part merged with the result of an earlier merge
+		op := xOp{Kind: "write", TagKind: map[string]string{"none": "", "str": "str", "mixed": "str"}[tagMode]}
+		for i := rapid.IntRange(1, 6).Draw(t, "n2"); i > 0; i-- {
+			d++
+			op.Elems = append(op.Elems, xElem{S: rapid.IntRange(1, 3).Draw(t, "s2"), K: rapid.Int64Range(-5, 30).Draw(t, "k2"), D: d})
+		}
+		c.Ops = append(c.Ops, op, xOp{Kind: "flush"}, xOp{Kind: "merge", Pick: []int{0, 1, 2, 3}})
+	}
 	for k := 0; k < rapid.IntRange(1, 3).Draw(t, "nq"); k++ {
 		c.Ops = append(c.Ops, genSidxQuery(t, &c))
 	}
@@ -473,6 +588,7 @@ func genSidxCase(t *rapid.T) xCase {
 
 func genSidxQuery(t *rapid.T, c *xCase) xOp {
 	q := xOp{Kind: "query", Desc: rapid.Bool().Draw(t, "desc"), Batch: rapid.SampledFrom([]int{0, 1, 2, 3, 7, 100}).Draw(t, "batch")}
+	q.Filter = rapid.IntRange(0, 3).Draw(t, "filter") == 0
 	n := rapid.IntRange(1, 3).Draw(t, "nsids")
 	q.Sids = rapid.SliceOfNDistinct(rapid.IntRange(1, 3), n, n, rapid.ID[int]).Draw(t, "sids")
 	// bounds are biased to keys that exist, in particular per-series extremes (= block min/max keys)
@@ -517,8 +633,8 @@ func sidxSpec(property string) verifkit.Spec[xCase] {
 	return verifkit.Spec[xCase]{
 		Property: property, Unit: "sidx", CrashReplay: true,
 		Rule: "histories against the real sidx through its public interface: 1..6 write batches of 1..25 elements (3 series, keys from a small range with " +
-			"many duplicates, unique payloads), interleaved with flush, merge of an arbitrary subset of file parts (with a query between merge computation and " +
-			"publication) and queries (series subset, inclusive MinKey/MaxKey, asc/desc, MaxBatchSize 1..100 or unlimited); oracle: QuerySync and " +
+			"many duplicates, unique payloads; optionally a tag 'status' whose type - string or int - is fixed per batch and may change between batches), interleaved with flush, merge of an arbitrary subset of file parts (with a query between merge computation and " +
+			"publication) and queries (series subset, inclusive MinKey/MaxKey, asc/desc, MaxBatchSize 1..100 or unlimited, optionally filtered to status == \"ok\"), a second merge round of a fresh part with a merged one; oracle: QuerySync and " +
 			"StreamingQuery each return exactly the written entries of the requested series within the key range, each once, in key order, batches within " +
 			"MaxBatchSize; a full scan after every step equals the model; non-trivial = a query over >= 2 parts that cuts the key range, or a query after a merge",
 		Gen: func(t *rapid.T, _ *verifkit.KnownSet) xCase { return genSidxCase(t) },
@@ -531,6 +647,9 @@ func sidxSpec(property string) verifkit.Spec[xCase] {
 			x.LabelIf(e.stats.multiPart, "query over >=2 parts")
 			x.LabelIf(e.stats.rangeCut, "key range cuts the result")
 			x.LabelIf(e.stats.afterMerge, "query after merge")
+			x.LabelIf(e.stats.filtered, "tag-filtered query")
+			x.LabelIf(e.stats.strTag && e.stats.intTag, "tag with conflicting types")
+			x.LabelIf(e.stats.strTag && e.stats.intTag && e.stats.merges >= 2, "conflicting types merged in >= 2 rounds")
 			if (e.stats.multiPart && e.stats.rangeCut) || e.stats.afterMerge {
 				x.NonTrivial()
 			}
